@@ -104,7 +104,10 @@ Step ==
            drift == IF ipos # {} /\ inx = {} THEN {<<Tr.id, "DRIFT", Detail(c, "impl")>>} ELSE {}
        IN IF nxt # {}
           THEN /\ poss' = nxt /\ ipos' = inx /\ l' = l + 1 /\ t' = t
-               /\ verdicts' = verdicts \cup drift
+               /\ LET s0 == CHOOSE s \in poss : Succ(dk, s, c, o, E) # {}
+                      u0 == CHOOSE u \in Succ(dk, s0, c, o, E) : TRUE
+                  IN verdicts' = verdicts \cup drift
+                         \cup {<<Tr.id, "EXTRA", Detail(c, k)>> : k \in ExtraBroken(dk, s0, c, o, u0)}
                /\ LET s0 == CHOOSE s \in poss : Succ(dk, s, c, o, E) # {}
                       ex == Exercised(dk, s0, c, o)
                   IN exer' = [k \in DOMAIN exer |-> exer[k] + (IF k \in ex THEN 1 ELSE 0)]
